@@ -350,7 +350,7 @@ func (s *Script) render(extra []string, getValues []string) string {
 	return b.String()
 }
 
-var symRe = regexp.MustCompile(`\|?(pf_|sf_)[^ ()|]+\|?`)
+var symRe = regexp.MustCompile(`\|?(pf_|sf_|glob_)[^ ()|]+\|?`)
 
 func trunc(s string, n int) string {
 	s = strings.ReplaceAll(s, "\n", " ")
